@@ -1,5 +1,6 @@
 """C08 - state recovery replays exactly the missed packets, or falls back cleanly."""
 import json
+import os
 import time
 
 from lib.vlib import gZ, gN, gbool, glist, gopt
@@ -293,10 +294,23 @@ def run(ctx):
     if vh is None:
         return
     q = ctx.quick
-    history_suite(ctx, vh, "exhaustive", ["-mode", "exhaustive", "-len", 4 if q else 5])
-    history_suite(ctx, vh, "random", ["-mode", "random", "-seed", ctx.seed, "-n", 800 if q else 12000])
-    history_suite(ctx, vh, "boundary", ["-mode", "boundary", "-tick", 20, "-par", 16])
-    live_suite(ctx, vh, "live", ["-seed", ctx.seed, "-n", 24 if q else 240, "-par", 6])
-    live_suite(ctx, vh, "live-binary", ["-seed", ctx.seed + 1, "-n", 16 if q else 160, "-par", 6, "-bin"])
-    history_suite(ctx, vh, "timed", ["-mode", "timed", "-seed", ctx.seed, "-n", 150 if q else 1500, "-tick", 20,
-                                     "-par", 16])
+    # development aid: VERIF_C08_SUITES=live,boundary runs a subset of the suites (never set by bin/check users)
+    only = [x for x in os.environ.get("VERIF_C08_SUITES", "").split(",") if x]
+
+    def want(name):
+        return not only or name in only
+    if only:
+        ctx.note("restricted to suites %s" % only)
+    if want("exhaustive"):
+        history_suite(ctx, vh, "exhaustive", ["-mode", "exhaustive", "-len", 4 if q else 5])
+    if want("random"):
+        history_suite(ctx, vh, "random", ["-mode", "random", "-seed", ctx.seed, "-n", 800 if q else 12000])
+    if want("boundary"):
+        history_suite(ctx, vh, "boundary", ["-mode", "boundary", "-tick", 20, "-par", 16])
+    if want("live"):
+        live_suite(ctx, vh, "live", ["-seed", ctx.seed, "-n", 24 if q else 240, "-par", 6])
+    if want("live-binary"):
+        live_suite(ctx, vh, "live-binary", ["-seed", ctx.seed + 1, "-n", 16 if q else 160, "-par", 6, "-bin"])
+    if want("timed"):
+        history_suite(ctx, vh, "timed", ["-mode", "timed", "-seed", ctx.seed, "-n", 150 if q else 1500, "-tick", 20,
+                                         "-par", 16])
